@@ -29,6 +29,7 @@ type GuardAlloc struct {
 	Frees    int
 	NoYield  bool
 	failures []string
+	huge     map[uintptr][]byte
 }
 
 type block struct {
@@ -64,6 +65,7 @@ func NewGuardAlloc(env *Env, protect bool) *GuardAlloc {
 		live:    map[uintptr]*block{},
 		freed:   map[uintptr]*block{},
 		env:     env,
+		huge:    map[uintptr][]byte{},
 	}
 	reset := func(n uintptr, prot int) {
 		if n > 0 {
@@ -95,6 +97,10 @@ func NewGuardAlloc(env *Env, protect bool) *GuardAlloc {
 
 // Release ends the use of the arena by this run (nothing may touch it later).
 func (g *GuardAlloc) Release() {
+	for a, hb := range g.huge {
+		syscall.Munmap(hb)
+		delete(g.huge, a)
+	}
 	if g.arena != nil {
 		if g.protect {
 			procArenaDirty = (g.next + pageSize - 1) &^ (pageSize - 1)
@@ -120,6 +126,22 @@ func classOfSize(size int) string {
 func (g *GuardAlloc) Malloc(size int) unsafe.Pointer {
 	if g.env != nil && !g.NoYield {
 		g.env.S.Yield(SiteHarnessMalloc)
+	}
+	if size > 1<<20 {
+		// huge requests (a damaged length prefix) come from the Go heap, like a
+		// lazily committing malloc; they are tracked but not guarded
+		// mapped lazily: pages that are never touched cost nothing
+		b, err := syscall.Mmap(-1, 0, size, syscall.PROT_READ|syscall.PROT_WRITE, syscall.MAP_ANON|syscall.MAP_PRIVATE|syscall.MAP_NORESERVE)
+		if err != nil {
+			panic(fmt.Sprintf("guard allocator: cannot map %d bytes: %v", size, err))
+		}
+		p := unsafe.Pointer(&b[0])
+		g.huge[uintptr(p)] = b
+		blk := &block{addr: uintptr(p), size: size, class: "item", pages: -1}
+		g.live[blk.addr] = blk
+		g.order = append(g.order, blk)
+		g.Mallocs++
+		return p
 	}
 	pages := (size + pageSize - 1) / pageSize
 	if pages == 0 {
@@ -195,6 +217,15 @@ func (g *GuardAlloc) Free(p unsafe.Pointer) {
 		}
 		return
 	}
+	if b.pages < 0 {
+		delete(g.live, addr)
+		if hb := g.huge[addr]; hb != nil {
+			syscall.Munmap(hb)
+		}
+		delete(g.huge, addr)
+		g.Frees++
+		return
+	}
 	if g.OnFree != nil {
 		g.OnFree(p, b)
 	}
@@ -267,6 +298,9 @@ func (g *GuardAlloc) CheckPoison() {
 		return
 	}
 	for _, b := range g.order {
+		if b.pages < 0 {
+			continue
+		}
 		asz := (b.size + 7) &^ 7
 		rz := unsafe.Slice((*byte)(unsafe.Pointer(b.addr+uintptr(asz))), 64)
 		for i, c := range rz {
@@ -277,7 +311,7 @@ func (g *GuardAlloc) CheckPoison() {
 		}
 	}
 	for _, b := range g.order {
-		if b.freedS == 0 && g.live[b.addr] != nil {
+		if b.pages < 0 || (b.freedS == 0 && g.live[b.addr] != nil) {
 			continue
 		}
 		if _, ok := g.freed[b.addr]; !ok {
@@ -316,6 +350,9 @@ func (g *GuardAlloc) DescribeAddr(a uintptr) (string, bool) {
 		return "", false
 	}
 	for _, b := range g.order {
+		if b.pages < 0 {
+			continue
+		}
 		start := (b.addr - g.base) &^ (pageSize - 1)
 		end := start + uintptr(b.pages+1)*pageSize
 		if b.pages == 0 {
